@@ -17,7 +17,8 @@ LEVEL_TEXT = (
     "Static decision of structural clauses of C19 on /repo's current source (serving.py): (R19.1) the response writer "
     "switches chunked framing on only under a guard that excludes a Content-Length header (compared in the case the "
     "header names were folded to), HEAD, every 1xx status, 204 and 304 (the guard atoms are evaluated over all status "
-    "codes 100-599) and requires protocol HTTP/1.1, and `Transfer-Encoding: chunked` is sent under exactly that guard, "
+    "codes 100-599; a guard that calls a side-effect-free predicate helper - a nested function or handler method made only of "
+    "`if` / `return` - is replaced by the helper's condition) and requires protocol HTTP/1.1, and `Transfer-Encoding: chunked` is sent under exactly that guard, "
     "before end_headers; (R19.2) on every path through write() the bytes put on the wire are `hex(len) CRLF data CRLF` "
     "for non-empty data under chunking, the data alone otherwise, and nothing for an empty piece; the last-chunk "
     "`0 CRLF CRLF` is written once, after the iteration and after the headers were forced out, only under chunking; "
@@ -38,13 +39,24 @@ LEVEL_TEXT = (
     "spellings and every name derived from a string constant of the loop - with the value and the earlier environ "
     "content symbolic; an undecidable condition is followed on both edges), looks Transfer-Encoding up after the header "
     "loop and de-chunks for 'chunked' in any letter case but not for '' / 'gzip' / 'identity', unquotes the "
-    "path (re-attaching a '//' first segment) and only re-encodes the query.  It decides these clauses on all paths of "
-    "the named functions; socket-level behaviour, http.server's own parsing and byte equality of whole exchanges are not decided."
+    "path (re-attaching a '//' first segment) and only re-encodes the query; (R19.5) the premise under R19.3 and under "
+    "exact Content-Length reads - `rfile.read(n)` returns fewer than n bytes only at end of stream - holds for the stream "
+    "the handler hands on: no class of the package in the request handler's hierarchy (bases and subclasses), no "
+    "attribute store / setattr / class namespace anywhere in the package binds `rbufsize` (the size "
+    "socketserver.StreamRequestHandler.setup passes to makefile) to a value that constant-folds to 0 (both arms of an "
+    "unfoldable conditional are taken), `rfile` is rebound only to a buffered reader (makefile / open with non-zero "
+    "buffering, io.BufferedReader; never socket.SocketIO, `.raw`, `.detach()`), a setup() override runs the inherited "
+    "setup() on every path, and the connection stays blocking (`timeout` not 0, no setblocking(False) / settimeout(0) in "
+    "the handler).  It decides these clauses on all paths of "
+    "the named functions; handler classes supplied by the caller of make_server / run_simple, socket options set outside "
+    "the handler classes, other socket-level behaviour, http.server's own parsing and byte equality of whole exchanges are not decided."
 )
 TRUSTED = [
     "CPython ast",
     "http.server.BaseHTTPRequestHandler parses the request line and headers and send_response/send_header/end_headers emit what they are given",
-    "the underlying buffered reader returns at most k bytes for read(k), and fewer only at end of stream",
+    "socketserver.StreamRequestHandler.setup: connection = request; settimeout(self.timeout) unless it is None (class default None); rfile = connection.makefile('rb', self.rbufsize) (class default rbufsize = -1); http.server.BaseHTTPRequestHandler derives from it and overrides none of these",
+    "socket.makefile('rb', k): the raw socket.SocketIO for k == 0, io.BufferedReader for every other k (None / negative: io.DEFAULT_BUFFER_SIZE > 0)",
+    "io.BufferedReader over a blocking raw stream returns at most k bytes for read(k), and fewer only at end of stream; a raw stream (socket.SocketIO, io.FileIO) or a non-blocking socket returns what one system call yields",
     "RFC 9112 s.6.1/7.1: no chunked framing with Content-Length, for HEAD, 1xx, 204, 304; chunk-size is hexadecimal",
 ]
 ASSUMPTIONS = ["status codes are three-digit integers 100..599", "chunk extensions and trailers are absent (as the property states)"]
@@ -91,13 +103,99 @@ def _implied(expr: ast.AST, truth: bool) -> list[tuple[ast.AST, str]]:
     return [(expr, "T" if truth else "F")]
 
 
-def _expanded_guards(cfg: CFG, rd: ReachingDefs, node: Node, depth: int = 2, widen: t.Callable[[ast.AST], bool] | None = None) -> list[tuple[t.Any, str]]:
+def _predicate_expr(fn: ast.AST) -> ast.AST | None:
+    """the boolean expression a side-effect-free predicate function returns: its body is nothing but `if` statements and
+    `return <expr>` (early returns), e.g. `if a: return False` / `if b: return False` / `return c` -> `not a and not b and c`.
+    None when the body has any other statement, or a path without a return."""
+
+    def is_const(e: ast.AST, v: bool) -> bool:
+        return isinstance(e, ast.Constant) and e.value is v
+
+    def mk(c: ast.AST, a: ast.AST, b: ast.AST) -> ast.AST:
+        neg = ast.UnaryOp(op=ast.Not(), operand=c)
+        if is_const(a, False):
+            return ast.BoolOp(op=ast.And(), values=[neg, b])
+        if is_const(a, True):
+            return ast.BoolOp(op=ast.Or(), values=[c, b])
+        if is_const(b, False):
+            return ast.BoolOp(op=ast.And(), values=[c, a])
+        if is_const(b, True):
+            return ast.BoolOp(op=ast.Or(), values=[neg, a])
+        return ast.IfExp(test=c, body=a, orelse=b)
+
+    def block(stmts: list[ast.stmt], fuel: int = 64) -> ast.AST | None:
+        stmts = [s_ for s_ in stmts if not isinstance(s_, ast.Pass) and not (isinstance(s_, ast.Expr) and isinstance(s_.value, ast.Constant))]
+        if not stmts or fuel <= 0:
+            return None
+        st = stmts[0]
+        if isinstance(st, ast.Return):
+            return st.value
+        if isinstance(st, ast.If):
+            a = block(list(st.body) + stmts[1:], fuel - 1)
+            b = block(list(st.orelse) + stmts[1:], fuel - 1)
+            if a is None or b is None:
+                return None
+            return mk(st.test, a, b)
+        return None
+
+    if not isinstance(fn, (ast.FunctionDef, ast.Lambda)):
+        return None
+    if isinstance(fn, ast.Lambda):
+        return fn.body
+    return block(list(fn.body))
+
+
+def _inline_predicate(call: ast.Call, helpers: dict[str, ast.AST]) -> ast.AST | None:
+    """`helper(a, b)` / `self._helper(a, b)` -> the helper's boolean expression with its parameters replaced by the
+    argument expressions (helpers: name -> FunctionDef; methods are keyed `self.<name>`).  Only plain positional calls
+    of predicates whose parameters are plain positionals; free names of the helper are closure / instance reads that
+    mean the same at the call (a predicate has no assignments)."""
+    if call.keywords or any(isinstance(a, ast.Starred) for a in call.args):
+        return None
+    key = call.func.id if isinstance(call.func, ast.Name) else (f"self.{call.func.attr}" if isinstance(call.func, ast.Attribute) and is_self_attr(call.func) else None)
+    fn = helpers.get(key) if key else None
+    if fn is None:
+        return None
+    a = fn.args  # type: ignore[attr-defined]
+    if a.vararg or a.kwarg or a.kwonlyargs or a.defaults:
+        return None
+    params = [x.arg for x in a.posonlyargs + a.args]
+    if key.startswith("self."):
+        params = params[1:]
+    if len(params) != len(call.args):
+        return None
+    body = _predicate_expr(fn)
+    if body is None:
+        return None
+    # a parameter must not be shadowed inside (comprehension targets / lambdas): keep it simple
+    if any(isinstance(x, (ast.Lambda, ast.comprehension, ast.NamedExpr)) for x in ast.walk(body)):
+        return None
+    sub = dict(zip(params, call.args))
+
+    class T(ast.NodeTransformer):
+        def visit_Name(self, n: ast.Name) -> ast.AST:  # noqa: N802
+            return H.clone(sub[n.id]) if n.id in sub and isinstance(n.ctx, ast.Load) else n
+
+    return ast.fix_missing_locations(T().visit(H.clone(body)))
+
+
+def _expanded_guards(cfg: CFG, rd: ReachingDefs, node: Node, depth: int = 2, widen: t.Callable[[ast.AST], bool] | None = None, helpers: dict[str, ast.AST] | None = None) -> list[tuple[t.Any, str]]:
     """dominating guard edges of node; a guard that tests a local boolean with a single definition is replaced by the
     atoms that definition implies (helper variable extracted from a condition), provided no name used in the
     definition is rebound between the definition and the test.  With ``widen``, locals inside an atom whose single
-    definition satisfies ``widen`` are replaced by that definition as well."""
+    definition satisfies ``widen`` are replaced by that definition as well.  With ``helpers``, a guard that calls a
+    predicate helper (see _inline_predicate) is replaced by the atoms the helper's result implies."""
 
     def expand(expr: ast.AST, label: str, at: Node, via: t.Any, d: int) -> list[tuple[t.Any, str]]:
+        if isinstance(expr, ast.UnaryOp) and isinstance(expr.op, ast.Not) and helpers and d > 0:
+            return expand(expr.operand, "F" if label == "T" else "T", at, via, d)
+        if isinstance(expr, ast.Call) and helpers and d > 0:
+            inl = _inline_predicate(expr, helpers)
+            if inl is not None:
+                out_: list[tuple[t.Any, str]] = []
+                for a, lab in _implied(inl, label == "T"):
+                    out_ += expand(a, lab, at, _Atom(a, at), d - 1)
+                return out_
         if isinstance(expr, ast.Name) and d > 0:
             defs = list(rd.reaching(at, expr.id))
             if len(defs) == 1 and defs[0].kind == "assign" and defs[0].node is not None and isinstance(defs[0].value, (ast.BoolOp, ast.Compare, ast.UnaryOp, ast.Call)):
@@ -165,6 +263,7 @@ def run(ctx: Ctx) -> None:
         "R19.2": "write(): wire bytes per path are size-line CRLF data CRLF iff chunking and data non-empty, the data alone without chunking, nothing for empty data; execute(): `0 CRLF CRLF` once after the iteration and after headers were forced, only under chunking; status / header pairs are passed on unfiltered",
         "R19.3": "de-chunker: header parse failures and negative sizes raise OSError (base 16); header / terminator / end-flag protocol holds on all paths (typestate); per loop iteration residual decrement == bytes requested == bytes stored at the fill position == count increment, within residual and buffer bounds; buffer stores are length-exact",
         "R19.4": "make_environ: wsgi.input_terminated set under exactly the guard that wraps wsgi.input in DechunkedInput; '_' header names skipped; CONTENT_TYPE/LENGTH unprefixed, others HTTP_-prefixed and comma-joined in order; path unquoted then re-encoded, query only re-encoded; '//' first segment re-attached",
+        "R19.5": "premise of the exactness argument: the request stream is the io.BufferedReader that StreamRequestHandler.setup creates over a blocking socket - `rbufsize` is bound to 0 nowhere (class bodies of the handler hierarchy, attribute stores, setattr, class namespaces), `rfile` is rebound only to a buffered reader, setup() overrides run the inherited setup(), `timeout` is not 0 and the handler never makes the connection non-blocking",
     }.items():
         ctx.rule(rid, text)
 
@@ -178,6 +277,7 @@ def run(ctx: Ctx) -> None:
     _response_rules(ctx, rw)
     dech = _environ_rules(ctx, me)
     _dechunker_rules(ctx, dech)
+    H.StreamPremise(ctx, handler, "R19.5").run()
 
 
 # =====================================================================
@@ -209,6 +309,11 @@ def _response_rules(ctx: Ctx, rw: FuncInfo) -> None:
 
     wcfg = cfg_of(wfi)
     rdw = ReachingDefs(wcfg, wfi.params)
+    # predicate helpers a guard may call: sibling nested functions, the writer's own nested functions, methods of the handler
+    pred_helpers: dict[str, ast.AST] = {n.name: n for n in nested if n is not wnode}
+    pred_helpers.update({n.name: n for n in ast.walk(wnode) if isinstance(n, ast.FunctionDef) and n is not wnode})
+    if rw.cls is not None:
+        pred_helpers.update({f"self.{nm}": fi.node for nm, fi in rw.cls.methods.items() if isinstance(fi.node, ast.FunctionDef)})
 
     # ---------------- R19.1 -------------------------------------------
     # every binding of the flag: constants only; True only inside the writer
@@ -238,7 +343,7 @@ def _response_rules(ctx: Ctx, rw: FuncInfo) -> None:
         is_code = lambda x: isinstance(x, ast.Name) and x.id == code_name  # noqa: E731
         is_proto = lambda x: is_self_attr(x, "protocol_version")  # noqa: E731
         tested = lambda v: any(is_code(x) or is_method(x) or is_proto(x) for x in ast.walk(v))  # noqa: E731
-        G = _expanded_guards(wcfg, rdw, fnode, widen=tested)
+        G = _expanded_guards(wcfg, rdw, fnode, widen=tested, helpers=pred_helpers)
         gtxt = sorted(f"{norm(t_.ast) if t_.kind == 'test' else t_.text()}:{l}" for t_, l in G)
         # status classes
         adm, atoms = H.admitted(G, is_code, range(100, 600))
@@ -339,14 +444,32 @@ def _response_rules(ctx: Ctx, rw: FuncInfo) -> None:
         ok = True
         for d in defs:
             tok = d.value.args[0].id  # type: ignore[union-attr]
+            def token_src(v: ast.AST | None, at: Node, first: bool, depth: int = 0) -> set[str]:
+                """the names whose first token (split / partition at whitespace) or whole value the expression is;
+                ``first``: the expression is a sequence and its element 0 is meant."""
+                if first and isinstance(v, ast.Call) and isinstance(v.func, ast.Attribute) and v.func.attr in ("split", "partition") and isinstance(v.func.value, ast.Name):
+                    return origin(at, v.func.value.id)
+                if first and isinstance(v, (ast.Tuple, ast.List)) and v.elts and isinstance(v.elts[0], ast.Name):
+                    return origin(at, v.elts[0].id)
+                if isinstance(v, ast.Subscript) and not first and isinstance(v.slice, ast.Constant) and v.slice.value == 0:
+                    return token_src(v.value, at, True, depth)
+                if isinstance(v, ast.Name) and first and depth < 3:  # a local holding the split result
+                    ds = rdw.reaching(at, v.id)
+                    if ds and all(x.kind == "assign" and x.index is None and x.node is not None for x in ds):
+                        out_: set[str] = set()
+                        for x in ds:
+                            out_ |= token_src(x.value, x.node, True, depth + 1)  # type: ignore[arg-type]
+                        return out_
+                if isinstance(v, ast.Name) and not first:
+                    return origin(at, v.id)
+                return {f"<{norm(v) if v is not None else '?'}>"}
+
             for dd in rdw.reaching(d.node, tok):  # type: ignore[arg-type]
                 v = dd.value
-                if dd.kind == "unpack" and dd.index == 0 and isinstance(v, ast.Call) and isinstance(v.func, ast.Attribute) and v.func.attr in ("split", "partition") and isinstance(v.func.value, ast.Name):
-                    src = origin(dd.node, v.func.value.id)  # type: ignore[arg-type]
-                elif dd.kind == "unpack" and dd.index == 0 and isinstance(v, ast.Tuple) and isinstance(v.elts[0], ast.Name):
-                    src = origin(dd.node, v.elts[0].id)  # type: ignore[arg-type]
-                elif dd.kind == "assign" and isinstance(v, ast.Name):
-                    src = origin(dd.node, v.id)  # type: ignore[arg-type]
+                if dd.kind == "unpack" and dd.index == 0:
+                    src = token_src(v, dd.node, True)  # type: ignore[arg-type]
+                elif dd.kind == "assign" and dd.index is None:
+                    src = token_src(v, dd.node, False)  # type: ignore[arg-type]
                 else:
                     src = {f"<{norm(v) if v is not None else dd.kind}>"}
                 fact += f"`{tok}` <- {sorted(src)}; "
